@@ -56,3 +56,5 @@ package parameters
 //@   modifies nothing
 //@ func (*nullValue).Any [C24 C19]
 //@   modifies nothing
+
+//@ type Parameters guarded_by mutex: params
